@@ -81,6 +81,11 @@ type Graph struct {
 	Root  *gen.Node
 	Types map[string]*gen.Node
 	Opt   bool // keys optional by default
+	// NullableTerminates: a {nullable: true} reference counts as satisfiable by
+	// null. The statement lists only optional properties, arrays and terminating
+	// or-alternatives, so callers assert "must reject" with this flag set and
+	// "must not report recursion" with it cleared.
+	NullableTerminates bool
 }
 
 // ReachableMissing: names referenced (transitively through added types, via any
@@ -171,9 +176,9 @@ func (g *Graph) nodeInhabited(n *gen.Node, inh map[string]bool) bool {
 		}
 	}
 	if alts {
-		return ok || n.HasTrue("nullable")
+		return ok || (g.NullableTerminates && n.HasTrue("nullable"))
 	}
-	if n.HasTrue("nullable") {
+	if g.NullableTerminates && n.HasTrue("nullable") {
 		return true
 	}
 	switch n.Kind {
